@@ -81,13 +81,62 @@ def oracle(rec):
     return None, checked
 
 
+def gen_idle_death(rng, k, sms):
+    """an idle worker is killed; the next map call reports it; then tasks go through apply_async (the workers stay alive);
+    the map call after that must be an ordinary, correct call"""
+    sm = [m for m in sms if m != 'threading'][k % 3]
+    nj = rng.choice([1, 2, 3])
+    keep = rng.random() < 0.5
+    mk = lambda base: {'kind': rng.choice(['map', 'map_unordered', 'imap', 'imap_unordered']), 'n': rng.choice([3, 8]), 'input': 'list',
+                       'elem': 'scalar', 'params': {'chunk_size': rng.choice([1, 2])}, 'base': base}
+    first = ({'kind': 'apply_batch', 'jobs': [{'id': 0, 'args': [1700], 'cbs': [False, False]}], 'get_timeout': 20, 'no_join': True}
+             if not keep or rng.random() < 0.5 else mk(1000))
+    calls = [first, {'kind': 'kill_idle_worker', 'worker': rng.randrange(nj), 'settle': 0.6},
+             dict(mk(2000), idle_death=True),
+             {'kind': 'apply_batch', 'jobs': [{'id': i, 'args': [3700 + i], 'cbs': [False, False]} for i in range(3)], 'get_timeout': 20,
+              'no_join': True},
+             mk(4000), {'kind': 'stop_and_join'}]
+    return {'id': f'k{k}', 'pool': {'n_jobs': nj, 'start_method': sm, 'keep_alive': keep}, 'calls': calls, 'budget': 75, 'behaviour': {},
+            'family': 'idle_death'}
+
+
+def oracle_idle_death(rec):
+    res = rec['result']
+    seen_death = False
+    for c, o in zip(rec['scenario']['calls'], res['calls']):
+        if c['kind'] == 'apply_batch':
+            msg = S.check_apply_batch(c, o)
+            if msg and not seen_death:
+                continue          # before the kill anything goes
+            if msg:
+                return f"after the reported idle death: {msg}", 1
+        elif c.get('idle_death'):
+            if o.get('outcome') == 'exc':
+                if o['exc']['type'] != 'RuntimeError':
+                    return f"the call after the idle death raised {o['exc']['type']}: {o['exc']['args'][:100]}", 1
+                seen_death = True
+            else:
+                msg = S.check_value(c, o)          # it may also complete correctly
+                if msg:
+                    return f"the call after the idle death returned wrong results: {msg}", 1
+                seen_death = True
+        elif 'n' in c and c['base'] == 4000:
+            if o.get('outcome') != 'ok':
+                return (f"the death of an idle worker was reported AGAIN by a later call (base 4000): {o['exc']['type']}: "
+                        f"{o['exc']['args'][:100]}"), 1
+            msg = S.check_value(c, o)
+            if msg:
+                return f"call base=4000 after a reported idle death: {msg}", 1
+    return None, 1
+
+
 def analyse(recs):
     bad, hangs, n = [], [], 0
     for rec in recs:
         if rec['status'] != 'done' or not rec['result']:
             hangs.append(rec)
             continue
-        msg, k = oracle(rec)
+        msg, k = oracle_idle_death(rec) if rec['scenario'].get('family') == 'idle_death' else oracle(rec)
         n += k
         if msg:
             bad.append((rec, msg))
@@ -100,6 +149,7 @@ def run(ctx):
     proof = build_props('C06', GROUPS)
     sms = ['fork', 'fork', 'threading', 'forkserver', 'spawn'] if ctx['tier'] == 'quick' else S.START_METHODS
     scens = [S.gen_history(rng, k, ctx['tier'], sms, failures=True) for k in range(44 if ctx['tier'] == 'quick' else 400)]
+    scens += [gen_idle_death(rng, k, sms) for k in range(9 if ctx['tier'] == 'quick' else 60)]
     recs = runner.run_many(scens, 'c06', jobs=10)
     bad, hangs, checked = analyse(recs)
     out_v = []
